@@ -123,7 +123,7 @@ int main(void)
    if (substdio_put(&ssout,ufline.s,ufline.len) == -1)
      strerr_die4sys(111,FATAL,"unable to write to ",mboxtmp,": ");
 
-   while (match && line.len)
+   while (match || line.len)
     {
      if (gfrom(line.s,line.len))
        if (substdio_puts(&ssout,">") == -1)
